@@ -16,6 +16,9 @@ const (
 	usernameOffset    = 2
 )
 
+// maxUsernameLen is the longest user name the 16-bit length prefix can carry.
+const maxUsernameLen = 0xFFFF
+
 type userAuthInitMsg struct {
 	username string
 }
@@ -42,6 +45,12 @@ func (msg *userAuthInitMsg) toBytes() []byte {
 
 // RequestAuthorization used by client to send username and get server confirmation or denial
 func RequestAuthorization(ch *tubes.Reliable, username string) bool {
+	if len(username) > maxUsernameLen {
+		// The length prefix is 16 bits; a longer name would be sent truncated
+		// (as a different, shorter user name).
+		logrus.Errorf("C: username of %d bytes does not fit a userauth request", len(username))
+		return false
+	}
 	mess := newUserAuthInitMsg(username).toBytes()
 	if len(mess) == 0 {
 		logrus.Errorf("C: client username empty userauth")
